@@ -653,6 +653,8 @@ def check_c03(an):
         if rep and (rep["samples"] or rep["cap"] != 0):
             out.append(V("C03", "test_mode_stores_samples", "test mode stored samples (len %d, capacity %d)" % (len(rep["samples"]), rep["cap"])))
         return out, info
+    if cfg.n != 0 and cfg.s > 0 and not max_zero and calls == 0 and not cfg.test:
+        out.append(V("C03", "not_called_with_budget", "no call at all although sample_count=%s, sample_size=%s and max_time=%s are all non-zero (the first round always runs)" % (cfg.n, cfg.s, cfg.max_ns)))
     limit_not_reached = False
     if (not cfg.tuned) and cfg.tsc and cfg.max_ns is not None and cfg.min_ns in (None, 0) and an.rounds:
         # a max_time is set: the exact-count clause still applies if, by the documented rule, the budget was not used up after
